@@ -309,19 +309,6 @@ Proof.
     exfalso. exact (H a (or_introl eq_refl) Ec).
 Qed.
 
-Lemma multi_false_unique : forall l, multi_inl l = false ->
-  forall r, In r l -> classify r = FInline -> first_inline l = Some r.
-Proof.
-  induction l as [|a l IH]; intros H r Hr Hc.
-  - destruct Hr.
-  - cbn [multi_inl] in H. cbn [first_inline]. destruct (classify a) eqn:Ec.
-    + destruct Hr as [<-|Hr]; [congruence|]. apply IH; assumption.
-    + destruct (first_inline l) eqn:Ef; [discriminate|].
-      destruct Hr as [<-|Hr]; [reflexivity|].
-      exfalso. exact (first_inline_none _ Ef _ Hr Hc).
-    + destruct Hr as [<-|Hr]; [congruence|]. apply IH; assumption.
-Qed.
-
 Lemma multi_false_last : forall l, multi_inl l = false -> last_inline l = first_inline l.
 Proof.
   induction l as [|a l IH]; intros H.
@@ -452,6 +439,14 @@ Section ReflectProofs.
     end.
 
   (** ** Unfolding equations *)
+
+  (* [zero] recurses on its fuel, so these need a case split on it *)
+  Lemma zero_ptr : forall k u, zero structs k (TPtr u) = VNil.
+  Proof. intros [|k] u; reflexivity. Qed.
+  Lemma zero_slice : forall k u, zero structs k (TSlice u) = VNil.
+  Proof. intros [|k] u; reflexivity. Qed.
+  Lemma zero_map : forall k u, zero structs k (TMap u) = VNil.
+  Proof. intros [|k] u; reflexivity. Qed.
 
   Lemma unm_null : forall f t old, unm structs zf (S f) t GNull old = UOk (zero structs zf t).
   Proof. reflexivity. Qed.
@@ -588,7 +583,7 @@ Section ReflectProofs.
       assert (HriL : In ri L) by (apply HinL; [exact Hri|congruence]).
       destruct (rest_keys fields m) as [|kv lo] eqn:Elo.
       + (* no leftover keys *)
-        f_equal. f_equal. unfold mk. apply map_ext_in. intros r Hr. f_equal.
+        f_equal. f_equal. unfold mk at 1. apply map_ext_in. intros r Hr. f_equal.
         rewrite (HF1 r Hr). rewrite (Hz r Hr).
         destruct (classify r); try reflexivity.
       + (* leftover keys go to the inline field *)
@@ -596,18 +591,15 @@ Section ReflectProofs.
         rewrite (HF1 ri HriL). rewrite Hci.
         unfold Z at 1. rewrite (IH _ _ Hw2).
         rewrite struct_set_mk.
-        f_equal. f_equal. unfold mk. apply map_ext_in. intros r Hr. f_equal.
+        f_equal. f_equal. unfold mk at 1. apply map_ext_in. intros r Hr. f_equal.
         rewrite (HF1 r Hr). rewrite (Hz r Hr).
         rewrite (String.eqb_sym (row_name ri) (row_name r)).
         destruct (String.eqb_spec (row_name r) (row_name ri)) as [E|E].
         * assert (r = ri) by (eapply name_inj; [exact Hnd|apply HLin; exact Hr|exact Hri|exact E]).
           subst r. rewrite Hci. reflexivity.
-        * destruct (classify r) eqn:Ec; try reflexivity.
-          exfalso. apply E. f_equal.
-          pose proof (multi_false_unique _ Hmulti r (HLin _ Hr) Ec) as Hu.
-          rewrite Ei in Hu. inversion Hu. reflexivity.
+        * destruct (classify r); reflexivity.
     - (* no inline field *)
-      f_equal. f_equal. unfold mk. apply map_ext_in. intros r Hr. f_equal.
+      f_equal. f_equal. unfold mk at 1. apply map_ext_in. intros r Hr. f_equal.
       rewrite (HF1 r Hr). rewrite (Hz r Hr).
       destruct (classify r) eqn:Ec; try reflexivity.
   Qed.
@@ -629,20 +621,20 @@ Section ReflectProofs.
       + (* TFloat *) destruct g; try discriminate H; try reflexivity.
       + (* TAny *) destruct g; try reflexivity.
       + (* TPtr *)
-        rewrite (unm_ptr f t g _ Hg). cbn [zero].
+        rewrite (unm_ptr f t g _ Hg). rewrite zero_ptr.
         assert (Hw : well_typed f t g = true) by (destruct g; try exact H; contradiction Hg; reflexivity).
         rewrite (IH _ _ Hw). destruct g; try reflexivity. contradiction Hg; reflexivity.
       + (* TSlice *)
         destruct g; try discriminate H; try (contradiction Hg; reflexivity).
         cbn [well_typed] in H. rewrite forallb_forall in H.
-        rewrite unm_slice. cbn [zero].
+        rewrite unm_slice. rewrite zero_slice.
         rewrite (seq_each_spec _ (ref structs zf f t)).
         * reflexivity.
         * intros a Ha. apply IH. apply H. exact Ha.
       + (* TMap *)
         destruct g; try discriminate H; try (contradiction Hg; reflexivity).
         cbn [well_typed] in H. rewrite forallb_forall in H.
-        rewrite unm_map. cbn [zero].
+        rewrite unm_map. rewrite zero_map.
         rewrite (map_each_spec _ (ref structs zf f t)).
         * reflexivity.
         * intros kv Hkv. apply IH. apply H. exact Hkv.
@@ -663,7 +655,7 @@ Section ReflectProofs.
 
   Lemma zero_closed_step : zero_closed -> forall t, zero structs (S zf) t = zero structs zf t.
   Proof.
-    intros HZ t. destruct t; try reflexivity.
+    intros HZ t. destruct t; try (destruct zf; reflexivity).
     rewrite (HZ name). reflexivity.
   Qed.
 End ReflectProofs.
@@ -729,7 +721,7 @@ Qed.
 
 Theorem family_keys_ok : keys_ok plain_family.
 Proof.
-  apply (fields_of_forall plain_family
+  unfold keys_ok. apply (fields_of_forall plain_family
            (fun l => nodupb (concat (map field_keys (keyed l))) && nodupb (map row_name l))
            (fun l => keys_disjoint l /\ NoDup (map row_name l))).
   - intros l H. apply andb_true_iff in H. destruct H as [H1 H2].
